@@ -15,7 +15,7 @@ from . import core
 ALPHABET = ["'", '"', "\\", "$", "`", "!", " ", "\t", "\n", "\r", "\x01", "\x7f", "é", "🚀", "-", "~", "#", "=", "*", "?", "[", "{",
             ";", "&", "|", "<", ">", "(", ")", "a"]
 BATCH = 30
-WORD_PRODUCERS = ["q", "Q", "xtrace", "arrQ"]          # re-read in word position: eval "set -- $text"
+WORD_PRODUCERS = ["q", "Q", "xtrace", "arrQ", "arrQe", "arrQa", "posQ"]          # re-read in word position: eval "set -- $text"
 ASSIGN_PRODUCERS = ["A", "declp", "declpx", "setlist", "exportp"]      # eval "$text" recreates variable x
 ARRAY_PRODUCERS = ["declpa", "declpA", "arrK"]
 OTHER = ["alias", "trap"]
@@ -35,6 +35,9 @@ def producer_script(n):
         s.append('( set -x; : "$x" ) 2> T/%d.xtrace' % i)
         s.append('a=("$x" "p q" "$x"); declare -p a > T/%d.declpa' % i)
         s.append('printf %%s "${a[*]@Q}" > T/%d.arrQ' % i)
+        # lists with empty elements: each element, the empty ones included, must come back as one word
+        s.append('b=("" "$x" ""); printf %%s "${b[*]@Q}" > T/%d.arrQe; printf "%%s " "${b[@]@Q}" > T/%d.arrQa' % (i, i))
+        s.append('( set -- "$x" "" "p q"; printf %%s "${*@Q}" > T/%d.posQ )' % i)
         s.append('if [ -n "$x" ]; then declare -A m=(); m["$x"]="$x"; declare -p m > T/%d.declpA; printf %%s "${m[@]@K}" > T/%d.arrK; unset m; fi' % (i, i))
         s.append('alias nm="$x"; alias nm > T/%d.alias; unalias nm' % i)
         s.append('trap -- "$x" USR1; trap -p USR1 > T/%d.trap; trap - USR1' % i)
@@ -47,6 +50,8 @@ def reader_script(n):
         for p in ("q", "Q"):
             s.append('rd T/%d.%s; eval "set -- $t"; argdump -t %s.%d -- "$@"' % (i, p, p, i))
         s.append('rd T/%d.arrQ; eval "set -- $t"; argdump -t arrQ.%d -- "$@"' % (i, i))
+        for p in ("arrQe", "arrQa", "posQ"):
+            s.append('rd T/%d.%s; eval "set -- $t"; argdump -t %s.%d -- "$@"' % (i, p, p, i))
         # xtrace: first line that starts with "+ : " up to the end of that trace entry (may span lines)
         s.append('rd T/%d.xtrace; t=${t#*+ : }; t=${t%%$\'\\n\'}; eval "set -- $t"; argdump -t xtrace.%d -- "$@"' % (i, i))
         for p in ("A", "declp", "declpx"):
@@ -99,6 +104,10 @@ def expected(prod, v):
         return [v]
     if prod == "arrQ":
         return [v, b"p q", v]
+    if prod in ("arrQe", "arrQa"):
+        return [b"", v, b""]
+    if prod == "posQ":
+        return [v, b"", b"p q"]
     if prod == "declpa":
         return [v, b"p q", v]
     if prod in ("declpA", "arrK"):
@@ -108,7 +117,7 @@ def expected(prod, v):
     raise ValueError(prod)
 
 
-ALL_PRODUCERS = ["q", "Q", "arrQ", "xtrace", "A", "declp", "declpx", "setlist", "exportp", "declpa", "declpA", "arrK", "alias", "trap"]
+ALL_PRODUCERS = ["q", "Q", "arrQ", "arrQe", "arrQa", "posQ", "xtrace", "A", "declp", "declpx", "setlist", "exportp", "declpa", "declpA", "arrK", "alias", "trap"]
 
 
 def run_batch(values):
@@ -219,12 +228,12 @@ def run(run):
     maxlen = 2 if quick else 3
     run.rule = ("every string up to length %d over a %d-symbol quoting alphabet (quotes, backslash, $, backquote, !, blanks, newline, CR, "
                 "control characters, multi-byte, leading - ~ # =, glob and operator characters) plus random strings to length 40, as "
-                "scalar value, array element, associative key and value, alias body and trap command; 14 producers run by brush, each "
+                "scalar value, array element, associative key and value, alias body and trap command; 17 producers run by brush, each "
                 "text re-read by brush and by bash through eval; recovered bytes must equal the injected bytes. "
                 "non-trivial = distinct values whose every producer x reader round trip succeeded" % (maxlen, len(ALPHABET)))
     run.assumptions = ["values contain no NUL", "alias / trap -p are compared through the reader's own printer (definition re-read vs value set directly)",
                        "`set` output is re-read from the x= entry only"]
-    vals = all_values(maxlen)
+    vals = [b""] + all_values(maxlen)        # (the empty string is a value too: it must come back as one empty word)
     if not quick:
         rng.shuffle(vals)
         vals = vals[: int(9000 * scale)] + [v for v in all_values(2)]
